@@ -5,11 +5,11 @@ package loadbalancer
 // Machine-checked contracts (comment-only; build tag verif). Checked by /verif/bin/hv.
 
 //@ func jumpHash
-//@   props C06
+//@   props C06 C12
 //@   requires 1 <= numBuckets
 //@   ensures range: 0 <= result && result < numBuckets
 //@ loop jumpHash #0
-//@   props C06
+//@   props C06 C12
 //@   invariant bounds: -1 <= b && b < j && b < numBuckets && 0 <= j
 //@   invariant lowb: j == 0 ==> b == -1
 //@   invariant nonneg: j > 0 ==> b >= 0
@@ -26,7 +26,7 @@ package loadbalancer
 //@ pred rrNonNil(rr *RoundRobinStrategy) := forall i int :: {rr.backends[i]} 0 <= i && i < len(rr.backends) ==> rr.backends[i] != nil
 
 //@ func (*RoundRobinStrategy).NextBackend
-//@   props C02 C05
+//@   props C02 C05 C12
 //@   requires unlocked(rr.mutex)
 //@   ensures empty: len(rr.backends) == 0 ==> result == nil && rr.current == old(rr.current)
 //@   ensures ticket: len(rr.backends) > 0 ==> rr.current == (old(rr.current) + 1) % 18446744073709551616
@@ -35,14 +35,15 @@ package loadbalancer
 //@   modifies rr.current
 
 //@ func (*RoundRobinStrategy).AddBackend
-//@   props C11
+//@   props C11 C12
 //@   requires unlocked(rr.mutex)
 //@   ensures appended: len(rr.backends) == old(len(rr.backends)) + 1 && rr.backends[old(len(rr.backends))] == backend
 //@   ensures kept: forall i int :: {rr.backends[i]} {old(rr.backends[i])} 0 <= i && i < old(len(rr.backends)) ==> rr.backends[i] == old(rr.backends[i])
+//@   ensures backing_is_old_or_fresh: rr.backends.base == old(rr.backends.base) || fresh(rr.backends.base)
 //@   modifies rr.backends, elems(rr.backends)
 
 //@ func (*RoundRobinStrategy).RemoveBackend
-//@   props C11
+//@   props C11 C12
 //@   requires unlocked(rr.mutex) && rrDistinct(rr)
 //@   ensures absent_unchanged: (forall i int :: 0 <= i && i < old(len(rr.backends)) ==> old(rr.backends[i]) != backend)
 //@             ==> len(rr.backends) == old(len(rr.backends)) && (forall i int :: {rr.backends[i]} 0 <= i && i < len(rr.backends) ==> rr.backends[i] == old(rr.backends[i]))
@@ -53,20 +54,20 @@ package loadbalancer
 //@   ensures nothing_new: forall i int :: {rr.backends[i]} 0 <= i && i < len(rr.backends) ==> exists j int :: 0 <= j && j < old(len(rr.backends)) && rr.backends[i] == old(rr.backends[j])
 //@   modifies rr.backends, elems(rr.backends)
 //@ loop (*RoundRobinStrategy).RemoveBackend #0
-//@   props C11
+//@   props C11 C12
 //@   invariant idx: -1 <= rangeindex && rangeindex < len(rr.backends)
 //@   invariant notfound: forall k int :: {rr.backends[k]} 0 <= k && k <= rangeindex ==> rr.backends[k] != backend
 //@   decreases len(rr.backends) - rangeindex
 
 //@ func (*RoundRobinStrategy).GetBackends
-//@   props C11 C02
+//@   props C11 C02 C12
 //@   requires unlocked(rr.mutex)
 //@   ensures copy: len(result) == len(rr.backends) && (forall i int :: {result[i]} {rr.backends[i]} 0 <= i && i < len(result) ==> result[i] == rr.backends[i])
 //@   ensures fresh_copy: len(result) > 0 ==> fresh(result.base)
 
 // ---- least connections
 //@ func (*LeastConnectionsStrategy).NextBackend
-//@   props C02 C05
+//@   props C02 C05 C12
 //@   requires unlocked(lc.mutex)
 //@   requires forall i int :: {lc.backends[i]} 0 <= i && i < len(lc.backends) ==> lc.backends[i] != nil
 //@   ensures empty: len(lc.backends) == 0 ==> result == nil
@@ -74,7 +75,7 @@ package loadbalancer
 //@   ensures minimal: result != nil ==> forall i int :: {lc.backends[i]} 0 <= i && i < len(lc.backends) ==> conns(result) <= conns(lc.backends[i])
 //@   ensures picks_one: result == nil && len(lc.backends) > 0 ==> forall i int :: {lc.backends[i]} 0 <= i && i < len(lc.backends) ==> conns(lc.backends[i]) >= 2147483647
 //@ loop (*LeastConnectionsStrategy).NextBackend #0
-//@   props C02 C05
+//@   props C02 C05 C12
 //@   invariant idx: -1 <= rangeindex && rangeindex < len(lc.backends)
 //@   invariant lower: forall k int :: {lc.backends[k]} 0 <= k && k <= rangeindex ==> minConnections <= conns(lc.backends[k])
 //@   invariant attained: selectedBackend != nil ==> conns(selectedBackend) == minConnections && (exists k int :: 0 <= k && k <= rangeindex && lc.backends[k] == selectedBackend)
@@ -95,7 +96,7 @@ package loadbalancer
 //@   guarantee no_early_readmission: !old(b.IsHealthy) && b.IsHealthy ==> now() > old(b.UnhealthyUntil)
 
 //@ func (*LoadBalancer).MarkBackendUnhealthy
-//@   props C02 C04
+//@   props C02 C04 C12
 //@   mode seq, mon
 //@   requires backend != nil && unlocked(backend.Mutex) && lbOK(lb)
 //@   requires unlocked(lb.metricsCollector.metrics.mutex) && bmCellsOK(lb.metricsCollector)
@@ -105,7 +106,7 @@ package loadbalancer
 //@   modifies backend.IsHealthy, backend.UnhealthyUntil, mapof(lb.metricsCollector.metrics.BackendMetrics), metrics.BackendMetrics.IsHealthy, metrics.BackendMetrics.LastHealthCheck
 
 //@ func (*LoadBalancer).IsBackendHealthy
-//@   props C02 C04
+//@   props C02 C04 C12
 //@   mode seq, mon
 //@   requires backend != nil && unlocked(backend.Mutex) && lbOK(lb)
 //@   requires unlocked(lb.metricsCollector.metrics.mutex) && bmCellsOK(lb.metricsCollector)
@@ -119,7 +120,7 @@ package loadbalancer
 
 // ---- probes
 //@ func (*LoadBalancer).processHealthCheckResponse
-//@   props C04
+//@   props C04 C12
 //@   mode seq, mon
 //@   requires backend != nil && resp != nil && unlocked(backend.Mutex) && lbOK(lb)
 //@   requires unlocked(lb.metricsCollector.metrics.mutex) && bmCellsOK(lb.metricsCollector)
@@ -131,7 +132,7 @@ package loadbalancer
 //@   modifies backend.IsHealthy, backend.UnhealthyUntil, mapof(lb.metricsCollector.metrics.BackendMetrics), metrics.BackendMetrics.IsHealthy, metrics.BackendMetrics.LastHealthCheck
 
 //@ func (*LoadBalancer).handleHealthCheckFailure
-//@   props C04
+//@   props C04 C12
 //@   requires backend != nil && unlocked(backend.Mutex) && lbOK(lb)
 //@   requires unlocked(lb.metricsCollector.metrics.mutex) && bmCellsOK(lb.metricsCollector)
 //@   ensures unreachable_ejects: !backend.IsHealthy && backend.UnhealthyUntil == now() + lb.healthChecks.passiveTimeout
@@ -143,7 +144,7 @@ package loadbalancer
 //@ pred failCount(lb *LoadBalancer, name string) int := has(lb.healthChecks.unhealthyBackends, name) ? lb.healthChecks.unhealthyBackends[name] : 0
 
 //@ func (*LoadBalancer).handlePassiveHealthCheck
-//@   props C04
+//@   props C04 C12
 //@   requires backend != nil && r != nil && unlocked(backend.Mutex) && lbOK(lb) && unlocked(lb.healthChecks.unhealthyBackendMu)
 //@   requires lb.healthChecks.unhealthyBackends != nil && lb.healthChecks.passiveThreshold >= 1
 //@   requires unlocked(lb.metricsCollector.metrics.mutex) && bmCellsOK(lb.metricsCollector)
@@ -167,8 +168,8 @@ package loadbalancer
 //@ pred noBackendLocks() := forall b *Backend :: {b.Mutex} unlocked(b.Mutex)
 
 //@ func (*LoadBalancer).NextBackend
-//@   props C02
-//@   requires unlocked(lb.mutex) && lb.strategy != nil && ptr(lb.strategy) != 0 && noStrategyLocks() && r != nil
+//@   props C02 C12
+//@   requires unlocked(lb.mutex) && lb.strategy != nil && ptr(lb.strategy) != 0 && noStrategyLocks() && noBackendLocks() && r != nil
 //@   requires poolOK(lb)
 //@   ensures member: result != nil ==> inPool(lb, result)
 //@   modifies RoundRobinStrategy.current, weightedBackend.currentWeight, hashedKey
@@ -197,6 +198,11 @@ package loadbalancer
 //@     && (dyntype(lb.strategy, *IPHashStrategy) ==> iphOK(asptr(lb.strategy, *IPHashStrategy)))
 //@     && (dyntype(lb.strategy, *IPHashConsistentStrategy) ==> iphcOK(asptr(lb.strategy, *IPHashConsistentStrategy)))
 
+//@ func (*Backend).healthFlag
+//@   props C02 C12
+//@   requires unlocked(backend.Mutex)
+//@   ensures result == backend.IsHealthy
+
 // ---- client address attribution of the hash strategies (C06): the string that is hashed is a function of
 // exactly three inputs: X-Forwarded-For, X-Real-IP and the peer address - not of path, port, other headers.
 //@ ghost var hashedKey String
@@ -208,15 +214,15 @@ package loadbalancer
 
 // ---- ip hash
 //@ func (*IPHashStrategy).NextBackend
-//@   props C02 C06
-//@   requires unlocked(iph.mutex) && r != nil && iphOK(iph)
+//@   props C02 C06 C12
+//@   requires unlocked(iph.mutex) && r != nil && iphOK(iph) && noBackendLocks()
 //@   ghost before Write :: hashedKey := ipStr
 //@   ensures hashes_client_key_only: result != nil ==> hashedKey == clientKey(r)
 //@   modifies hashedKey
 //@   ensures member: result != nil ==> inIPH(iph, result) && result.IsHealthy
 //@   ensures nil_only_if_none_flagged: result == nil ==> forall i int :: {iph.backends[i]} 0 <= i && i < len(iph.backends) ==> !iph.backends[i].IsHealthy
 //@ loop (*IPHashStrategy).NextBackend #0
-//@   props C02 C06
+//@   props C02 C06 C12
 //@   invariant idx: -1 <= rangeindex && rangeindex < len(iph.backends)
 //@   invariant pool_kept: iph.backends == old(iph.backends) && (forall i int :: {iph.backends[i]} 0 <= i && i < len(iph.backends) ==> iph.backends[i] == old(iph.backends[i]))
 //@   invariant separate: healthyBackends.base != iph.backends.base && healthyBackends.base != 0 && allocated(healthyBackends.base) && !preexisting(healthyBackends.base)
@@ -228,15 +234,15 @@ package loadbalancer
 
 // ---- ip hash, consistent
 //@ func (*IPHashConsistentStrategy).NextBackend
-//@   props C02 C06
-//@   requires unlocked(iph.mutex) && r != nil && iphcOK(iph)
+//@   props C02 C06 C12
+//@   requires unlocked(iph.mutex) && r != nil && iphcOK(iph) && noBackendLocks()
 //@   ghost before Write :: hashedKey := ipStr
 //@   ensures hashes_client_key_only: result != nil ==> hashedKey == clientKey(r)
 //@   modifies hashedKey
 //@   ensures member: result != nil ==> inIPHC(iph, result) && result.IsHealthy
 //@   ensures nil_only_if_none_flagged: result == nil ==> forall i int :: {iph.backends[i]} 0 <= i && i < len(iph.backends) ==> !iph.backends[i].IsHealthy
 //@ loop (*IPHashConsistentStrategy).NextBackend #0
-//@   props C02 C06
+//@   props C02 C06 C12
 //@   invariant idx: -1 <= rangeindex && rangeindex < len(iph.backends)
 //@   invariant pool_kept: iph.backends == old(iph.backends) && (forall i int :: {iph.backends[i]} 0 <= i && i < len(iph.backends) ==> iph.backends[i] == old(iph.backends[i]))
 //@   invariant separate: healthyBackends.base != iph.backends.base && healthyBackends.base != 0 && allocated(healthyBackends.base) && !preexisting(healthyBackends.base)
@@ -249,14 +255,15 @@ package loadbalancer
 // ---- add/remove/list for the other slice-of-backend strategies (same shape as round robin)
 //@ pred distinct_LeastConnectionsStrategy(s *LeastConnectionsStrategy) := forall i int :: forall j int :: 0 <= i && i < j && j < len(s.backends) ==> s.backends[i] != s.backends[j]
 //@ func (*LeastConnectionsStrategy).AddBackend
-//@   props C11
+//@   props C11 C12
 //@   requires unlocked(lc.mutex)
 //@   ensures appended: len(lc.backends) == old(len(lc.backends)) + 1 && lc.backends[old(len(lc.backends))] == backend
 //@   ensures kept: forall i int :: {lc.backends[i]} {old(lc.backends[i])} 0 <= i && i < old(len(lc.backends)) ==> lc.backends[i] == old(lc.backends[i])
+//@   ensures backing_is_old_or_fresh: lc.backends.base == old(lc.backends.base) || fresh(lc.backends.base)
 //@   modifies lc.backends, elems(lc.backends)
 
 //@ func (*LeastConnectionsStrategy).RemoveBackend
-//@   props C11
+//@   props C11 C12
 //@   requires unlocked(lc.mutex) && distinct_LeastConnectionsStrategy(lc)
 //@   ensures absent_unchanged: (forall i int :: 0 <= i && i < old(len(lc.backends)) ==> old(lc.backends[i]) != backend)
 //@             ==> len(lc.backends) == old(len(lc.backends)) && (forall i int :: {lc.backends[i]} 0 <= i && i < len(lc.backends) ==> lc.backends[i] == old(lc.backends[i]))
@@ -267,13 +274,13 @@ package loadbalancer
 //@   ensures nothing_new: forall i int :: {lc.backends[i]} 0 <= i && i < len(lc.backends) ==> exists j int :: 0 <= j && j < old(len(lc.backends)) && lc.backends[i] == old(lc.backends[j])
 //@   modifies lc.backends, elems(lc.backends)
 //@ loop (*LeastConnectionsStrategy).RemoveBackend #0
-//@   props C11
+//@   props C11 C12
 //@   invariant idx: -1 <= rangeindex && rangeindex < len(lc.backends)
 //@   invariant notfound: forall k int :: {lc.backends[k]} 0 <= k && k <= rangeindex ==> lc.backends[k] != backend
 //@   decreases len(lc.backends) - rangeindex
 
 //@ func (*LeastConnectionsStrategy).GetBackends
-//@   props C11 C02
+//@   props C11 C02 C12
 //@   requires unlocked(lc.mutex)
 //@   ensures copy: len(result) == len(lc.backends) && (forall i int :: {result[i]} {lc.backends[i]} 0 <= i && i < len(result) ==> result[i] == lc.backends[i])
 //@   ensures fresh_copy: len(result) > 0 ==> fresh(result.base)
@@ -281,14 +288,15 @@ package loadbalancer
 
 //@ pred distinct_IPHashStrategy(s *IPHashStrategy) := forall i int :: forall j int :: 0 <= i && i < j && j < len(s.backends) ==> s.backends[i] != s.backends[j]
 //@ func (*IPHashStrategy).AddBackend
-//@   props C11
+//@   props C11 C12
 //@   requires unlocked(iph.mutex)
 //@   ensures appended: len(iph.backends) == old(len(iph.backends)) + 1 && iph.backends[old(len(iph.backends))] == backend
 //@   ensures kept: forall i int :: {iph.backends[i]} {old(iph.backends[i])} 0 <= i && i < old(len(iph.backends)) ==> iph.backends[i] == old(iph.backends[i])
+//@   ensures backing_is_old_or_fresh: iph.backends.base == old(iph.backends.base) || fresh(iph.backends.base)
 //@   modifies iph.backends, elems(iph.backends)
 
 //@ func (*IPHashStrategy).RemoveBackend
-//@   props C11
+//@   props C11 C12
 //@   requires unlocked(iph.mutex) && distinct_IPHashStrategy(iph)
 //@   ensures absent_unchanged: (forall i int :: 0 <= i && i < old(len(iph.backends)) ==> old(iph.backends[i]) != backend)
 //@             ==> len(iph.backends) == old(len(iph.backends)) && (forall i int :: {iph.backends[i]} 0 <= i && i < len(iph.backends) ==> iph.backends[i] == old(iph.backends[i]))
@@ -299,13 +307,13 @@ package loadbalancer
 //@   ensures nothing_new: forall i int :: {iph.backends[i]} 0 <= i && i < len(iph.backends) ==> exists j int :: 0 <= j && j < old(len(iph.backends)) && iph.backends[i] == old(iph.backends[j])
 //@   modifies iph.backends, elems(iph.backends)
 //@ loop (*IPHashStrategy).RemoveBackend #0
-//@   props C11
+//@   props C11 C12
 //@   invariant idx: -1 <= rangeindex && rangeindex < len(iph.backends)
 //@   invariant notfound: forall k int :: {iph.backends[k]} 0 <= k && k <= rangeindex ==> iph.backends[k] != backend
 //@   decreases len(iph.backends) - rangeindex
 
 //@ func (*IPHashStrategy).GetBackends
-//@   props C11 C02
+//@   props C11 C02 C12
 //@   requires unlocked(iph.mutex)
 //@   ensures copy: len(result) == len(iph.backends) && (forall i int :: {result[i]} {iph.backends[i]} 0 <= i && i < len(result) ==> result[i] == iph.backends[i])
 //@   ensures fresh_copy: len(result) > 0 ==> fresh(result.base)
@@ -313,14 +321,15 @@ package loadbalancer
 
 //@ pred distinct_IPHashConsistentStrategy(s *IPHashConsistentStrategy) := forall i int :: forall j int :: 0 <= i && i < j && j < len(s.backends) ==> s.backends[i] != s.backends[j]
 //@ func (*IPHashConsistentStrategy).AddBackend
-//@   props C11
+//@   props C11 C12
 //@   requires unlocked(iph.mutex)
 //@   ensures appended: len(iph.backends) == old(len(iph.backends)) + 1 && iph.backends[old(len(iph.backends))] == backend
 //@   ensures kept: forall i int :: {iph.backends[i]} {old(iph.backends[i])} 0 <= i && i < old(len(iph.backends)) ==> iph.backends[i] == old(iph.backends[i])
+//@   ensures backing_is_old_or_fresh: iph.backends.base == old(iph.backends.base) || fresh(iph.backends.base)
 //@   modifies iph.backends, elems(iph.backends)
 
 //@ func (*IPHashConsistentStrategy).RemoveBackend
-//@   props C11
+//@   props C11 C12
 //@   requires unlocked(iph.mutex) && distinct_IPHashConsistentStrategy(iph)
 //@   ensures absent_unchanged: (forall i int :: 0 <= i && i < old(len(iph.backends)) ==> old(iph.backends[i]) != backend)
 //@             ==> len(iph.backends) == old(len(iph.backends)) && (forall i int :: {iph.backends[i]} 0 <= i && i < len(iph.backends) ==> iph.backends[i] == old(iph.backends[i]))
@@ -331,13 +340,13 @@ package loadbalancer
 //@   ensures nothing_new: forall i int :: {iph.backends[i]} 0 <= i && i < len(iph.backends) ==> exists j int :: 0 <= j && j < old(len(iph.backends)) && iph.backends[i] == old(iph.backends[j])
 //@   modifies iph.backends, elems(iph.backends)
 //@ loop (*IPHashConsistentStrategy).RemoveBackend #0
-//@   props C11
+//@   props C11 C12
 //@   invariant idx: -1 <= rangeindex && rangeindex < len(iph.backends)
 //@   invariant notfound: forall k int :: {iph.backends[k]} 0 <= k && k <= rangeindex ==> iph.backends[k] != backend
 //@   decreases len(iph.backends) - rangeindex
 
 //@ func (*IPHashConsistentStrategy).GetBackends
-//@   props C11 C02
+//@   props C11 C02 C12
 //@   requires unlocked(iph.mutex)
 //@   ensures copy: len(result) == len(iph.backends) && (forall i int :: {result[i]} {iph.backends[i]} 0 <= i && i < len(result) ==> result[i] == iph.backends[i])
 //@   ensures fresh_copy: len(result) > 0 ==> fresh(result.base)
@@ -346,8 +355,8 @@ package loadbalancer
 
 // ---- weighted round robin
 //@ func (*WeightedRoundRobinStrategy).NextBackend
-//@   props C02 C05
-//@   requires unlocked(wrr.mutex) && wrrOK(wrr)
+//@   props C02 C05 C12
+//@   requires unlocked(wrr.mutex) && wrrOK(wrr) && noBackendLocks()
 //@   ensures member: result != nil ==> inWRR(wrr, result) && result.IsHealthy
 //@   ensures nil_only_if_none_flagged: result == nil ==> forall i int :: {wrr.backends[i]} 0 <= i && i < len(wrr.backends) ==> !wrr.backends[i].backend.IsHealthy
 //@   ensures ejected_earn_no_credit: forall i int :: {wrr.backends[i]} 0 <= i && i < len(wrr.backends) && !wrr.backends[i].backend.IsHealthy
@@ -356,7 +365,7 @@ package loadbalancer
 //@             ==> wrr.backends[i].currentWeight == wrap64(old(wrr.backends[i].currentWeight) + wrr.backends[i].backend.Weight)
 //@   modifies weightedBackend.currentWeight
 //@ loop (*WeightedRoundRobinStrategy).NextBackend #0
-//@   props C02 C05
+//@   props C02 C05 C12
 //@   invariant idx: -1 <= rangeindex && rangeindex < len(wrr.backends)
 //@   invariant best_ok: best != nil ==> best.backend != nil && best.backend.IsHealthy && (exists k int :: {wrr.backends[k]} 0 <= k && k <= rangeindex && wrr.backends[k] == best)
 //@   invariant none_yet: best == nil ==> forall k int :: {wrr.backends[k]} 0 <= k && k <= rangeindex ==> !wrr.backends[k].backend.IsHealthy
@@ -371,14 +380,14 @@ package loadbalancer
 //@ pred poolNonNil(lb *LoadBalancer) := forall b *Backend :: inPool(lb, b) ==> b != nil
 
 //@ func (*LoadBalancer).findHealthyBackend
-//@   props C02 C04
+//@   props C02 C04 C12
 //@   requires lbOK(lb) && idle(lb) && poolOK(lb) && r != nil && bmCellsOK(lb.metricsCollector)
 //@   ensures only_eligible: result != nil ==> result.IsHealthy && inPool(lb, result)
 //@   ensures none_only_if_all_ejected: result == nil ==> forall b *Backend :: inPool(lb, b) ==> !b.IsHealthy && entry_now() <= b.UnhealthyUntil
 //@   ensures cells: bmCellsOK(lb.metricsCollector)
 //@   modifies hashedKey, Backend.IsHealthy, RoundRobinStrategy.current, weightedBackend.currentWeight, mapof(lb.metricsCollector.metrics.BackendMetrics), metrics.BackendMetrics.IsHealthy, metrics.BackendMetrics.LastHealthCheck
 //@ loop (*LoadBalancer).findHealthyBackend #0
-//@   props C02 C04
+//@   props C02 C04 C12
 //@   invariant tries: 0 <= i && i <= 3
 //@   invariant cells: bmCellsOK(lb.metricsCollector)
 //@   invariant ok: lbOK(lb) && idle(lb) && poolOK(lb)
@@ -386,7 +395,7 @@ package loadbalancer
 //@   modifies hashedKey, Backend.IsHealthy, RoundRobinStrategy.current, weightedBackend.currentWeight, mapof(lb.metricsCollector.metrics.BackendMetrics), metrics.BackendMetrics.IsHealthy, metrics.BackendMetrics.LastHealthCheck
 
 //@ loop (*LoadBalancer).findHealthyBackend #1
-//@   props C02 C04
+//@   props C02 C04 C12
 //@   invariant idx: -1 <= rangeindex && rangeindex < len(backends)
 //@   invariant cells: bmCellsOK(lb.metricsCollector)
 //@   invariant ok: lbOK(lb) && idle(lb) && poolOK(lb)
@@ -396,12 +405,12 @@ package loadbalancer
 //@   modifies Backend.IsHealthy, mapof(lb.metricsCollector.metrics.BackendMetrics), metrics.BackendMetrics.IsHealthy, metrics.BackendMetrics.LastHealthCheck
 
 //@ func (*WeightedRoundRobinStrategy).GetBackends
-//@   props C11 C02
+//@   props C11 C02 C12
 //@   requires unlocked(wrr.mutex) && wrrOK(wrr)
 //@   ensures copy: len(result) == len(wrr.backends) && (forall i int :: {result[i]} {wrr.backends[i]} 0 <= i && i < len(result) ==> result[i] == wrr.backends[i].backend)
 //@   ensures fresh_copy: len(result) > 0 ==> fresh(result.base)
 //@ loop (*WeightedRoundRobinStrategy).GetBackends #0
-//@   props C11 C02
+//@   props C11 C02 C12
 //@   invariant idx: -1 <= rangeindex && rangeindex < len(wrr.backends)
 //@   invariant copied: forall k int :: {backends[k]} 0 <= k && k <= rangeindex ==> backends[k] == wrr.backends[k].backend
 //@   invariant kept: forall x int :: {backing(x, []*weightedBackend)} backing(x, []*weightedBackend) == old(backing(x, []*weightedBackend))
@@ -420,7 +429,7 @@ package loadbalancer
 //@      && mtx(lb).RateLimitedRequests < 9223372036854775808
 
 //@ func (*LoadBalancer).recordRequestMetrics
-//@   props C04 C13
+//@   props C04 C13 C12
 //@   requires backend != nil && reqOK(lb, r) && lbOK(lb) && idle(lb) && bmCellsOK(lb.metricsCollector) && passiveOK(lb) && below2to63(lb)
 //@   ensures one_outcome: outcomes(lb) == old(outcomes(lb)) + 1 && mtx(lb).RateLimitedRequests == old(mtx(lb).RateLimitedRequests)
 //@   ensures classified_ok: statusCode < 500 ==> mtx(lb).SuccessfulRequests == old(mtx(lb).SuccessfulRequests) + 1 && mtx(lb).FailedRequests == old(mtx(lb).FailedRequests)
@@ -440,7 +449,7 @@ package loadbalancer
 //@            metrics.BackendMetrics.FailedRequests, metrics.BackendMetrics.AverageResponseTime, metrics.Metrics.SuccessfulRequests, metrics.Metrics.FailedRequests, metrics.Metrics.avgResponseTimeBits
 
 //@ func (*LoadBalancer).proxyRequest
-//@   props C01 C07 C13
+//@   props C01 C07 C13 C12
 //@   may_panic
 //@   requires backend != nil && backend.ReverseProxy != nil && reqOK(lb, r) && lbOK(lb) && idle(lb) && bmCellsOK(lb.metricsCollector) && passiveOK(lb) && below2to63(lb)
 //@   ensures gauge_restored: backend.ActiveConnections == old(backend.ActiveConnections)
@@ -465,7 +474,7 @@ package loadbalancer
 //@      && bmCellsOK(lb.metricsCollector) && passiveOK(lb) && below2to63(lb)
 
 //@ func (*LoadBalancer).handleRequest
-//@   props C02 C07 C13
+//@   props C02 C07 C13 C12
 //@   may_panic
 //@   requires servingOK(lb, r) && w != nil
 //@   ensures one_outcome: outcomes(lb) == old(outcomes(lb)) + 1 && mtx(lb).RateLimitedRequests == old(mtx(lb).RateLimitedRequests)
@@ -489,7 +498,7 @@ package loadbalancer
 //@ pred breakerOK(lb *LoadBalancer) := lb.circuitBreaker != nil ==> unlocked(lb.circuitBreaker.mutex) && cbInv(lb.circuitBreaker)
 
 //@ func (*LoadBalancer).checkRateLimit
-//@   props C09 C13
+//@   props C09 C13 C12
 //@   requires reqOK(lb, r) && r.Header != nil && w != nil && lbOK(lb) && limiterOK(lb) && below2to63(lb)
 //@   ensures allowed_untouched: result ==> outcomes(lb) == old(outcomes(lb)) && mtx(lb).RateLimitedRequests == old(mtx(lb).RateLimitedRequests)
 //@   ensures limited_429: !result ==> mtx(lb).RateLimitedRequests == old(mtx(lb).RateLimitedRequests) + 1 && outcomes(lb) == old(outcomes(lb)) + 1
@@ -500,7 +509,7 @@ package loadbalancer
 //@            ratelimiter.TokenBucketRateLimiter.buckets, ratelimiter.bucket.tokens, ratelimiter.bucket.lastRefill, ratelimiter.bucket.adm, ratelimiter.bucket.seen, ratelimiter.bucket.pre
 
 //@ func (*LoadBalancer).ServeHTTP
-//@   props C07 C09 C13
+//@   props C07 C09 C13 C12
 //@   may_panic
 //@   requires servingOK(lb, r) && r.Header != nil && w != nil && limiterOK(lb) && breakerOK(lb) && mtx(lb).TotalRequests < 9223372036854775808
 //@   ensures every_request_counted_once: mtx(lb).TotalRequests == old(mtx(lb).TotalRequests) + 1 && outcomes(lb) == old(outcomes(lb)) + 1
@@ -510,22 +519,22 @@ package loadbalancer
 // ---- the balancer's response-writer wrapper (C01 transparency of the glue, C20 upgrade support)
 //@ forwards responseWriter : http.Flusher, http.Hijacker props C01 C20
 //@ func (*responseWriter).WriteHeader
-//@   props C01
+//@   props C01 C12
 //@   requires rw.ResponseWriter != nil
 //@   ensures same_status_forwarded: rw.statusCode == statusCode && (!old(rw.ResponseWriter.committed) ==> rw.ResponseWriter.committed && rw.ResponseWriter.status == statusCode)
 //@   ensures body_untouched: rw.ResponseWriter.bodyLen == old(rw.ResponseWriter.bodyLen)
 //@   modifies rw.statusCode, http.ResponseWriter.committed, http.ResponseWriter.status, http.ResponseWriter.ceAtCommit, http.ResponseWriter.clAtCommit
 //@ func (*responseWriter).Flush
-//@   props C01
+//@   props C01 C12
 //@   requires rw.ResponseWriter != nil
 //@   ensures flush_forwarded: implements(rw.ResponseWriter, http.Flusher) ==> rw.ResponseWriter.flushes == old(rw.ResponseWriter.flushes) + 1
 //@   ensures nothing_else: rw.ResponseWriter.bodyLen == old(rw.ResponseWriter.bodyLen) && rw.statusCode == old(rw.statusCode)
 //@   modifies http.ResponseWriter.flushes, http.ResponseWriter.committed, http.ResponseWriter.status, http.ResponseWriter.ceAtCommit, http.ResponseWriter.clAtCommit
 //@ func (*responseWriter).Unwrap
-//@   props C01
+//@   props C01 C12
 //@   ensures result == rw.ResponseWriter
 //@ func (*responseWriter).Hijack
-//@   props C20
+//@   props C20 C12
 //@   requires rw.ResponseWriter != nil
 //@   ensures hijack_forwarded: implements(rw.ResponseWriter, http.Hijacker) && result2 == nil ==> rw.ResponseWriter.hijacked
 //@   ensures same_connection_as_the_wrapped_writer: implements(rw.ResponseWriter, http.Hijacker) ==> result0.dyn == hconn_tag(ptr(rw.ResponseWriter)) && result0.ref == hconn_val(ptr(rw.ResponseWriter)) && ptr(result1) == hbrw(ptr(rw.ResponseWriter))
@@ -540,7 +549,7 @@ package loadbalancer
 //@      && (forall k1 string :: forall k2 string :: {p.pools[k1], p.pools[k2]} has(p.pools, k1) && has(p.pools, k2) && k1 != k2 ==> p.pools[k1] != p.pools[k2])
 
 //@ func (*WebSocketPool).Put
-//@   props C20
+//@   props C20 C12
 //@   requires unlocked(p.mu) && poolsOK(p)
 //@   ensures kept: poolsOK(p)
 //@   ensures nil_refused: conn == nil ==> !result
@@ -553,14 +562,14 @@ package loadbalancer
 //@   modifies mapof(p.pools), connPool.idle, connPool.active, connPool.backend, connPool.idleTimeout, elems(p.pools[backend].idle), net.Conn.closed
 
 //@ func (*WebSocketPool).Stats
-//@   props C20
+//@   props C20 C12
 //@   requires unlocked(p.mu) && poolsOK(p)
 //@   ensures has(p.pools, backend) ==> idle == len(p.pools[backend].idle) && active == p.pools[backend].active
 //@   ensures !has(p.pools, backend) ==> idle == 0 && active == 0
 
 //@ pred idleOK(c *connPool) := forall i int :: {c.idle[i]} 0 <= i && i < len(c.idle) ==> c.idle[i].conn != nil
 //@ func (*WebSocketPool).Get
-//@   props C20
+//@   props C20 C12
 //@   requires unlocked(p.mu) && poolsOK(p) && (has(p.pools, backend) ==> idleOK(p.pools[backend]))
 //@   ensures kept: poolsOK(p) && (has(p.pools, backend) ==> idleOK(p.pools[backend]))
 //@   ensures unknown_backend: !has(p.pools, backend) ==> result == nil
@@ -574,7 +583,7 @@ package loadbalancer
 //@   ensures nothing_usable_left: result == nil && has(p.pools, backend) ==> len(p.pools[backend].idle) == 0
 //@   modifies connPool.idle, connPool.active, net.Conn.closed
 //@ loop (*WebSocketPool).Get #0
-//@   props C20
+//@   props C20 C12
 //@   invariant same_store: pool.idle.base == old(pool.idle.base) && len(pool.idle) <= old(len(pool.idle)) && cap(pool.idle) == old(cap(pool.idle)) && 0 <= len(pool.idle)
 //@   invariant closed_tail: forall i int :: {pool.idle[i]} len(pool.idle) <= i && i < old(len(pool.idle)) ==> asiface(ptr(pool.idle[i].conn), net.Conn).closed
 //@   invariant nonnil: forall i int :: {pool.idle[i]} 0 <= i && i < old(len(pool.idle)) ==> pool.idle[i].conn != nil
@@ -602,15 +611,16 @@ package loadbalancer
 //@     && (dyntype(lb.strategy, *IPHashConsistentStrategy) ==> distinct_IPHashConsistentStrategy(asptr(lb.strategy, *IPHashConsistentStrategy)))
 
 //@ func (*WeightedRoundRobinStrategy).AddBackend
-//@   props C11
+//@   props C11 C12
 //@   requires unlocked(wrr.mutex)
 //@   ensures appended: len(wrr.backends) == old(len(wrr.backends)) + 1 && wrr.backends[old(len(wrr.backends))] != nil && fresh(wrr.backends[old(len(wrr.backends))])
 //@             && wrr.backends[old(len(wrr.backends))].backend == backend && wrr.backends[old(len(wrr.backends))].currentWeight == 0
 //@   ensures kept: forall i int :: {wrr.backends[i]} {old(wrr.backends[i])} 0 <= i && i < old(len(wrr.backends)) ==> wrr.backends[i] == old(wrr.backends[i])
+//@   ensures backing_is_old_or_fresh: wrr.backends.base == old(wrr.backends.base) || fresh(wrr.backends.base)
 //@   modifies wrr.backends, elems(wrr.backends)
 
 //@ func (*WeightedRoundRobinStrategy).RemoveBackend
-//@   props C11
+//@   props C11 C12
 //@   requires unlocked(wrr.mutex) && wrrOK(wrr) && wrrDistinct(wrr)
 //@   ensures absent_unchanged: (forall i int :: 0 <= i && i < old(len(wrr.backends)) ==> old(wrr.backends[i]).backend != backend)
 //@             ==> len(wrr.backends) == old(len(wrr.backends)) && (forall i int :: {wrr.backends[i]} 0 <= i && i < len(wrr.backends) ==> wrr.backends[i] == old(wrr.backends[i]))
@@ -621,13 +631,13 @@ package loadbalancer
 //@   ensures nothing_new: forall i int :: {wrr.backends[i]} 0 <= i && i < len(wrr.backends) ==> exists j int :: {old(wrr.backends[j])} 0 <= j && j < old(len(wrr.backends)) && wrr.backends[i] == old(wrr.backends[j])
 //@   modifies wrr.backends, elems(wrr.backends)
 //@ loop (*WeightedRoundRobinStrategy).RemoveBackend #0
-//@   props C11
+//@   props C11 C12
 //@   invariant idx: -1 <= rangeindex && rangeindex < len(wrr.backends)
 //@   invariant notfound: forall k int :: {wrr.backends[k]} 0 <= k && k <= rangeindex ==> wrr.backends[k].backend != backend
 //@   decreases len(wrr.backends) - rangeindex
 
 //@ func (*LoadBalancer).RemoveBackend
-//@   props C11
+//@   props C11 C12
 //@   requires adminOK(lb) && namesUnique(lb) && distinctPool(lb) && poolNonNil(lb)
 //@   ensures no_backend_of_that_name_is_left: forall b *Backend :: inPool(lb, b) ==> b.Name != name
 //@   ensures others_are_kept: forall b *Backend :: old(inPool(lb, b)) && b.Name != name ==> inPool(lb, b)
@@ -636,13 +646,13 @@ package loadbalancer
 //@   modifies RoundRobinStrategy.backends, LeastConnectionsStrategy.backends, WeightedRoundRobinStrategy.backends, IPHashStrategy.backends, IPHashConsistentStrategy.backends,
 //@            key:[]*loadbalancer.Backend, key:[]*loadbalancer.weightedBackend
 //@ loop (*LoadBalancer).RemoveBackend #0
-//@   props C11
+//@   props C11 C12
 //@   invariant idx: rangeindex < len(ranged)
 //@   invariant not_found_yet: forall k int :: {ranged[k]} 0 <= k && k <= rangeindex ==> ranged[k].Name != name
 //@   decreases len(ranged) - rangeindex
 
 //@ func (*LoadBalancer).AddBackend
-//@   props C11 C05 C03
+//@   props C11 C05 C03 C12
 //@   requires adminOK(lb) && namesUnique(lb) && poolNonNil(lb)
 //@   ensures added_is_listed_and_eligible: result == nil ==> exists b *Backend :: inPool(lb, b) && fresh(b) && b.Name == backendCfg.Name && b.IsHealthy
 //@             && b.Weight == max(1, backendCfg.Weight) && b.ActiveConnections == 0 && b.ReverseProxy != nil
@@ -655,26 +665,81 @@ package loadbalancer
 //@   modifies RoundRobinStrategy.backends, LeastConnectionsStrategy.backends, WeightedRoundRobinStrategy.backends, IPHashStrategy.backends, IPHashConsistentStrategy.backends,
 //@            key:[]*loadbalancer.Backend, key:[]*loadbalancer.weightedBackend, mapof(lb.metricsCollector.metrics.BackendMetrics), metrics.BackendMetrics.IsHealthy, metrics.BackendMetrics.LastHealthCheck
 //@ loop (*LoadBalancer).AddBackend #0
-//@   props C11 C05 C03
+//@   props C11 C05 C03 C12
 //@   invariant idx: rangeindex < len(ranged)
 //@   invariant no_such_name_yet: forall k int :: {ranged[k]} 0 <= k && k <= rangeindex ==> ranged[k].Name != backendCfg.Name
 //@   decreases len(ranged) - rangeindex
 
+//@ pred sBackingBase(s Strategy) int := dyntype(s, *RoundRobinStrategy) ? asptr(s, *RoundRobinStrategy).backends.base
+//@      : (dyntype(s, *LeastConnectionsStrategy) ? asptr(s, *LeastConnectionsStrategy).backends.base
+//@      : (dyntype(s, *IPHashStrategy) ? asptr(s, *IPHashStrategy).backends.base
+//@      : (dyntype(s, *IPHashConsistentStrategy) ? asptr(s, *IPHashConsistentStrategy).backends.base : 0)))
+//@ pred sLen(s Strategy) int := dyntype(s, *RoundRobinStrategy) ? len(asptr(s, *RoundRobinStrategy).backends)
+//@      : (dyntype(s, *LeastConnectionsStrategy) ? len(asptr(s, *LeastConnectionsStrategy).backends)
+//@      : (dyntype(s, *WeightedRoundRobinStrategy) ? len(asptr(s, *WeightedRoundRobinStrategy).backends)
+//@      : (dyntype(s, *IPHashStrategy) ? len(asptr(s, *IPHashStrategy).backends) : len(asptr(s, *IPHashConsistentStrategy).backends))))
+//@ pred sAt(s Strategy, i int) *Backend := dyntype(s, *RoundRobinStrategy) ? asptr(s, *RoundRobinStrategy).backends[i]
+//@      : (dyntype(s, *LeastConnectionsStrategy) ? asptr(s, *LeastConnectionsStrategy).backends[i]
+//@      : (dyntype(s, *WeightedRoundRobinStrategy) ? asptr(s, *WeightedRoundRobinStrategy).backends[i].backend
+//@      : (dyntype(s, *IPHashStrategy) ? asptr(s, *IPHashStrategy).backends[i] : asptr(s, *IPHashConsistentStrategy).backends[i])))
 //@ pred knownStrategy(name string) := name == "round_robin" || name == "least_connections" || name == "weighted_round_robin" || name == "ip_hash" || name == "ip_hash_consistent"
 //@ func (*LoadBalancer).SetStrategy
-//@   props C11
+//@   props C11 C12
 //@   requires adminOK(lb) && poolNonNil(lb)
 //@   ensures error_iff_unknown_strategy: result == nil <==> knownStrategy(name)
 //@   ensures unknown_name_changes_nothing: result != nil ==> lb.strategy == old(lb.strategy) && lb.config.LoadBalancer.Strategy == old(lb.config.LoadBalancer.Strategy)
-//@   ensures switch_keeps_exactly_the_same_backends: result == nil ==> (forall b *Backend :: old(inPool(lb, b)) ==> inPool(lb, b)) && (forall b *Backend :: inPool(lb, b) ==> old(inPool(lb, b)))
+//@   ensures switch_keeps_the_same_backends_in_order: result == nil ==> sLen(lb.strategy) == old(sLen(lb.strategy))
+//@             && (forall i int :: {sAt(lb.strategy, i)} 0 <= i && i < sLen(lb.strategy) ==> sAt(lb.strategy, i) == old(sAt(lb.strategy, i)))
 //@   ensures name_recorded: result == nil ==> lb.config.LoadBalancer.Strategy == name
 //@   modifies lb.strategy, lb.config.LoadBalancer.Strategy, RoundRobinStrategy.backends, LeastConnectionsStrategy.backends, WeightedRoundRobinStrategy.backends, IPHashStrategy.backends,
 //@            IPHashConsistentStrategy.backends, key:[]*loadbalancer.Backend, key:[]*loadbalancer.weightedBackend
 //@ loop (*LoadBalancer).SetStrategy #0
-//@   props C11
+//@   props C11 C12
 //@   invariant idx: rangeindex < len(ranged)
-//@   invariant moved_so_far: forall k int :: {ranged[k]} 0 <= k && k <= rangeindex ==> inS(newStrategy, ranged[k])
-//@   invariant nothing_else: forall b *Backend :: inS(newStrategy, b) ==> exists k int :: {ranged[k]} 0 <= k && k <= rangeindex && ranged[k] == b
+//@   invariant moved_in_order: sLen(newStrategy) == rangeindex + 1 && (forall k int :: {ranged[k]} {sAt(newStrategy, k)} 0 <= k && k <= rangeindex ==> sAt(newStrategy, k) == ranged[k])
 //@   invariant new_is_separate: ptr(newStrategy) != 0 && !preexisting(ptr(newStrategy)) && lb.strategy == old(lb.strategy)
 //@   invariant snapshot_kept: forall k int :: {ranged[k]} 0 <= k && k < len(ranged) ==> ranged[k] == old(ranged[k])
+//@   invariant backing_separate: dyntype(newStrategy, *WeightedRoundRobinStrategy) || (sBackingBase(newStrategy) != 0 && !preexisting(sBackingBase(newStrategy)) && (len(ranged) > 0 ==> sBackingBase(newStrategy) != ranged.base))
+//@   invariant snapshot_is_a_copy: len(ranged) > 0 ==> !preexisting(ranged.base)
+//@   invariant others_kept: forall x int :: {backing(x, []*Backend)} preexisting(x) ==> backing(x, []*Backend) == old(backing(x, []*Backend))
+//@   invariant new_is_unlocked: noStrategyLocks() && unlocked(lb.mutex) == false
 //@   decreases len(ranged) - rangeindex
+
+// ---------------------------------------------------------------------------------------------------
+// Concurrency (C12): access policies of shared fields. Every load/store of such a field in a verified
+// function generates a permission obligation: the guarding lock is held in a sufficient mode, or the
+// access is an atomic operation, or the object is still private to the allocating function.
+//@ field Backend.IsHealthy guarded_by Backend.Mutex
+//@ field Backend.UnhealthyUntil guarded_by Backend.Mutex
+//@ field Backend.ActiveConnections atomic
+//@ field Backend.Name immutable
+//@ field Backend.URL immutable
+//@ field Backend.ReverseProxy immutable
+//@ field Backend.Weight immutable
+//@ field LoadBalancer.strategy guarded_by LoadBalancer.mutex
+//@ field RoundRobinStrategy.backends guarded_by RoundRobinStrategy.mutex
+//@ field RoundRobinStrategy.current atomic
+//@ field LeastConnectionsStrategy.backends guarded_by LeastConnectionsStrategy.mutex
+//@ field WeightedRoundRobinStrategy.backends guarded_by WeightedRoundRobinStrategy.mutex
+//@ field IPHashStrategy.backends guarded_by IPHashStrategy.mutex
+//@ field IPHashConsistentStrategy.backends guarded_by IPHashConsistentStrategy.mutex
+//@ field weightedBackend.currentWeight guarded_by WeightedRoundRobinStrategy.mutex
+//@ field healthChecker.unhealthyBackends guarded_by healthChecker.unhealthyBackendMu
+//@ field WebSocketPool.pools guarded_by WebSocketPool.mu
+//@ field connPool.idle guarded_by connPool.mu
+//@ field connPool.active guarded_by connPool.mu
+
+// ListBackends: under contract for its locking discipline only (flag read under the backend's read lock,
+// gauge read atomically, pool read under the balancer's lock); the functional clause "lists exactly the pool"
+// is not proved here (five struct-element backing stores in one append loop: not discharged in reasonable time).
+//@ func (*LoadBalancer).ListBackends
+//@   props C11 C12
+//@   requires adminOK(lb) && noBackendLocks() && poolNonNil(lb) && urlsOK(lb)
+//@   modifies key:[]loadbalancer.BackendInfo
+//@ pred urlsOK(lb *LoadBalancer) := forall b *Backend :: inPool(lb, b) ==> b.URL != nil
+//@ loop (*LoadBalancer).ListBackends #0
+//@   props C11 C12
+//@   invariant idx: rangeindex < len(backends)
+//@   invariant snapshot_kept: forall x int :: {backing(x, []*Backend)} backing(x, []*Backend) == old(backing(x, []*Backend))
+//@   invariant locks: noBackendLocks()
+//@   decreases len(backends) - rangeindex
